@@ -76,9 +76,10 @@ _REG = [None]
 def custom_class():
     if _REG[0] is None:
         import stix2.v21
-        from stix2.properties import BooleanProperty, FloatProperty, IntegerProperty, StringProperty
+        from stix2.properties import BooleanProperty, DictionaryProperty, FloatProperty, IntegerProperty, StringProperty
 
-        @stix2.v21.CustomObservable("x-verif-obs", [("flag", BooleanProperty()), ("val", StringProperty()), ("num", IntegerProperty()), ("ratio", FloatProperty()), ("note", StringProperty())], ["flag", "val", "num", "ratio"])
+        @stix2.v21.CustomObservable("x-verif-obs", [("flag", BooleanProperty()), ("val", StringProperty()), ("num", IntegerProperty()), ("ratio", FloatProperty()), ("data", DictionaryProperty(spec_version="2.1")), ("note", StringProperty())],
+                                     ["flag", "val", "num", "ratio", "data"])
         class XVerifObs(object):
             pass
         _REG[0] = XVerifObs
@@ -132,7 +133,10 @@ def build_cases(chk, quick):
     for typ in sorted(CLASSES) + ["x-verif-obs"]:
         for i in range(per_type):
             if typ == "x-verif-obs":
-                base, con, non = {}, {"flag": lambda: rng.choice([False, True]), "val": lambda: rng.choice(STRS), "num": lambda: rng.choice([0, 7]), "ratio": lambda: rng.choice(FLOATS)}, {"note": lambda: rng.choice(STRS)}
+                # "data" is free-form content: floats directly in a list, in a nested list, as dictionary values; integral floats are written without a fraction
+                con = {"flag": lambda: rng.choice([False, True]), "val": lambda: rng.choice(STRS), "num": lambda: rng.choice([0, 7]), "ratio": lambda: rng.choice(FLOATS),
+                       "data": lambda: {"series": [rng.choice(FLOATS), 2.0, rng.choice(FLOATS)], "nested": [[1.0, rng.choice(FLOATS)], {"v": rng.choice(FLOATS)}], "one": rng.choice(FLOATS + [3.0])}}
+                base, non = {}, {"note": lambda: rng.choice(STRS)}
                 cls = xcls
             else:
                 base, con, non = spec(rng)[typ]
@@ -220,7 +224,7 @@ def run(chk):
         d.pop("id")
         rec = {"type": c["type"].replace("-", "_"), "names": {k: units(k) for k in d}, "props": tag(d)}
         if c["type"] == "x-verif-obs":
-            rec["contrib"] = ["flag", "val", "num", "ratio"]
+            rec["contrib"] = ["flag", "val", "num", "ratio", "data"]
             rec["type"] = "process"       # any table row; "contrib" overrides it
         recs.append(rec)
         objs.append((c, o, d))
@@ -234,7 +238,7 @@ def run(chk):
     checked = 0
     for (c, o, d), exp in zip(objs, out):
         typ = c["type"]
-        present = sorted(k for k in c["kw"] if k in (["flag", "val", "num"] if typ == "x-verif-obs" else spec(rng)[typ][1]))
+        present = sorted(k for k in c["kw"] if k in (["flag", "val", "num", "ratio", "data"] if typ == "x-verif-obs" else spec(rng)[typ][1]))
         hk = list(d.get("hashes", {}))
         sig = [typ, present, hk, exp["kind"]]
         ids = {}
@@ -289,6 +293,43 @@ def run(chk):
                            "spec_preimage": from_units(exp["pre"]) if exp["kind"] == "uuid5" else None}, "S2")
     chk.traces += checked
     chk.stages["S2_spec_to_code"] = {"observables": checked, "routes_each": 3}
+    # ---- S3: the identifier of given content does not depend on what the library was asked to do before (histories): other objects of the type are versioned,
+    # revoked, copied, serialized and parsed permissively, then the same content is created again
+    import stix2.versioning
+    import datetime as dt
+    seen_types = {}
+    nhist = 0
+    for (c, o, d), exp in zip(objs, out):
+        typ = c["type"]
+        if exp["kind"] != "uuid5" or seen_types.get(typ, 0) >= (3 if quick else 40):
+            continue
+        hk = list(d.get("hashes", {}))
+        if "hashes" in c["kw"] and len(hk) > 1 and not any(h in hk for h in ("MD5", "SHA-1", "SHA-256", "SHA-512")):
+            continue
+        seen_types[typ] = seen_types.get(typ, 0) + 1
+        ops = []
+        try:
+            t0 = dt.datetime(2020, 1, 1, tzinfo=dt.timezone.utc)
+            other = c["cls"](allow_custom=True, created=t0, modified=t0, revoked=False, **copy.deepcopy(c["kw"]))     # (an observable carrying all three versioning properties may be versioned)
+            for name, f in (("new_version", lambda: other.new_version(modified=t0 + dt.timedelta(seconds=1))), ("revoke", lambda: stix2.versioning.revoke(other)),
+                            ("new_version(dict)", lambda: stix2.versioning.new_version(json.loads(other.serialize()), modified=t0 + dt.timedelta(seconds=2))),
+                            ("deepcopy", lambda: copy.deepcopy(other)), ("serialize", lambda: other.serialize(pretty=True)),
+                            ("permissive parse", lambda: stix2.parse(dict(json.loads(o.serialize()), x_extra=1), allow_custom=True, version="2.1"))):
+                try:
+                    f()
+                    ops.append(name)
+                except Exception as e:  # noqa  (what these operations may refuse is C05's business)
+                    ops.append("%s:%s" % (name, type(e).__name__))
+            again = c["cls"](**copy.deepcopy(c["kw"]))["id"]
+        except Exception as e:  # noqa
+            chk.notes["history_stage_skipped"] = chk.notes.get("history_stage_skipped", 0) + 1
+            continue
+        nhist += 1
+        chk.case(["history", typ, again == o["id"]])
+        if again != o["id"]:
+            chk.violation({"entry": "v21.%s" % (CLASSES.get(typ, "CustomObservable")), "clause": "id_depends_on_earlier_operations", "case": "type=%s after=%s" % (typ, ",".join(x.split(":")[0] for x in ops))},
+                          {"type": typ, "kwargs": c["kw"], "id": o["id"], "id_after": again, "operations_between": ops}, "S3")
+    chk.stages["S3_histories"] = {"contents_recreated_after_other_operations": nhist}
     # across processes (hash randomisation varied)
     prog = ("import sys, json; sys.path.insert(0, %r); import stix2.v21 as v\n"
             "print(json.dumps([v.File(name='n', hashes={'SHA-256': %r, 'MD5': %r}).id, v.NetworkTraffic(protocols=['tcp'], src_ref=%r, extensions={'http-request-ext': {'request_method': 'get', 'request_value': '/', 'request_header': {'b': '1', 'a': '2'}}}).id, v.Software(name='n', vendor='v').id]))"
